@@ -71,6 +71,24 @@ MUTANTS = [
     {"id": "C13-future-deref-ignores-timeout", "prop": "C13", "edits": [
         R(FUT, "            return self._future.result(timeout=timeout)\n        except _TimeoutError:",
           "            return self._future.result(timeout=None if timeout else timeout)\n        except _TimeoutError:")]},
+    # ---- C06
+    {"id": "C06-revert-F1-lock-while-holding-gil", "prop": "C06", "edits": [
+        R(SEQRS, "        self.lock.lock_py_attached(py)\n    }", "        self.lock.lock()\n    }")]},
+    {"id": "C06-revert-F2-generator-not-restored", "prop": "C06", "revert": ["SUBJECT:a LazySeq whose generator raised"]},
+    {"id": "C06-revert-iterate-lazy-step", "prop": "C06", "revert": ["SUBJECT:iterate does not call f until"]},
+    {"id": "C06-revert-concat-resumable", "prop": "C06", "revert": ["SUBJECT:concat survives an exception"]},
+    {"id": "C06-map-calls-f-twice", "prop": "C06", "edits": [
+        R(CORE, "      (cons (f (first coll)) (map f (rest coll))))))\n  ([f coll & colls]",
+          "      (do (f (first coll)) (cons (f (first coll)) (map f (rest coll)))))))\n  ([f coll & colls]")]},
+    {"id": "C06-filter-realizes-one-ahead", "prop": "C06", "edits": [
+        R(CORE, "    (when-let [coll (seq coll)]\n      (if (pred (first coll))\n        (cons (first coll) (filter pred (rest coll)))",
+          "    (when-let [coll (seq coll)]\n      (seq (rest coll))\n      (if (pred (first coll))\n        (cons (first coll) (filter pred (rest coll)))")]},
+    {"id": "C06-computed-state-not-cached", "prop": "C06", "edits": [
+        R(SEQRS, "                    *state = LazySeqState::Computed(obj.clone_ref(py));\n                    Ok(obj.clone_ref(py))",
+          "                    *state = LazySeqState::Initialized(gen);\n                    Ok(obj.clone_ref(py))")]},
+    {"id": "C06-realized-seq-dropped-tail", "prop": "C06", "edits": [
+        R(SEQRS, "            Some(Ok(v)) => Ok(new_py_cons(\n                py,\n                v,\n                Some(new_py_lazy_seq(py, slf.into_bound_py_any(py)?)?),",
+          "            Some(Ok(v)) => Ok(new_py_cons(\n                py,\n                v,\n                Some(new_py_lazy_seq(py, Sequence { it: slf.it.clone_ref(py) }.into_bound_py_any(py)?)?),")]},
     # ---- C18
     {"id": "C18-revert-order-independent-dispatch", "prop": "C18", "revert": ["57d3903"]},
     {"id": "C18-revert-F8-snapshot-under-lock", "prop": "C18", "revert": ["57d3903", "425145c"]},
@@ -87,9 +105,9 @@ MUTANTS = [
     {"id": "C18-isa-reads-live-hierarchy-in-slow-path", "prop": "C18", "edits": [
         R(MULTI, "        if hierarchy is None:\n            hierarchy = self._hierarchy.deref()\n        return bool(self._isa.value(hierarchy, tag, parent))",
           "        hierarchy = self._hierarchy.deref()\n        return bool(self._isa.value(hierarchy, tag, parent))")]},
-    {"id": "C18-default-method-ignored-when-cached-miss", "prop": "C18", "edits": [
-        R(MULTI, "            if best_method is None:\n                best_method = self._methods.val_at(self._default)\n",
-          "            if best_method is None and not matches:\n                best_method = self._cache.val_at(self._default)\n")]},
+    {"id": "C18-add-method-keeps-cache", "prop": "C18", "edits": [
+        R(MULTI, "            self._methods = self._methods.assoc(key, method)\n            self._reset_cache()",
+          "            self._methods = self._methods.assoc(key, method)\n            self._cache = self._cache.assoc(key, method)")]},
     {"id": "C18-underive-keeps-descendants", "prop": "C18", "edits": [
         R(CORE, "                   (make-hierarchy))))))\n\n;;;;;;;;;;;;;;;;;;\n;; Multimethods ;;", "                   (assoc (make-hierarchy) :descendants (:descendants h)))))))\n\n;;;;;;;;;;;;;;;;;;\n;; Multimethods ;;")]},
     {"id": "C18-derive-forgets-transitive-ancestors", "prop": "C18", "edits": [
